@@ -103,7 +103,7 @@ func replay(d doc) *divergence {
 	w := node.NewWorld(env)
 	m := node.BuildMenu(w)
 	for _, b := range m.Prefix {
-		if orphan, err, blocked := w.Process(node.CopyBlock(b, nil), watchdog); err != nil || orphan || blocked {
+		if orphan, err, blocked := w.Process(node.CopyBlock(b, nil), 8*watchdog); err != nil || orphan || blocked { // set-up, not under test: generous
 			vh.Fatal("funding prefix block %d not accepted: orphan=%v err=%v blocked=%v", b.Height, orphan, err, blocked)
 		}
 	}
@@ -205,6 +205,35 @@ func replay(d doc) *divergence {
 			}
 			if (perr != nil) != c.Err || (perr == nil && orphan != c.Orphan) {
 				prop := "C13"
+				if perr == nil && c.Err && specs[c.B].bad == "none" {
+					// recorded C10 defect: a vote output restored by detaching the block that spent it gets creation height 0 in
+					// the store, so a later veto inside the lock time is let through. Recognised by the path: the accepted block
+					// carries a veto that another delivered block, not an ancestor of it, carried before.
+					anc := func(a, b int) bool {
+						for x := b; x > 0; x = parentOf[x] {
+							if x == a {
+								return true
+							}
+						}
+						return false
+					}
+					for _, t := range specs[c.B].txs {
+						if m.Txs[t].VoteAmt >= 0 {
+							continue
+						}
+						for k := 0; k < i; k++ {
+							x := d.Calls[k]
+							if x.Op != "deliver" || x.B == c.B || anc(x.B, c.B) {
+								continue
+							}
+							for _, t2 := range specs[x.B].txs {
+								if t2 == t {
+									return &divergence{i, prop, "ret:veto-after-detached-veto", fmt.Sprintf("ProcessBlock(block %d, txs %v) accepted a veto of a vote output that is still inside its lock time: block %d, delivered before and not an ancestor, had spent the same vote output, and detaching it restored the output with creation height 0", c.B, specs[c.B].txs, x.B)}
+								}
+							}
+						}
+					}
+				}
 				return &divergence{i, prop, "ret:" + specs[c.B].bad, fmt.Sprintf("ProcessBlock(block %d, txs %v, mutation %s) returned (orphan=%v, err=%v), specification says (orphan=%v, err=%v)", c.B, specs[c.B].txs, specs[c.B].bad, orphan, perr, c.Orphan, c.Err)}
 			}
 		case "submit":
